@@ -16,6 +16,7 @@ import (
 	"strings"
 	"sync"
 	"syscall"
+	"time"
 )
 
 var (
@@ -26,8 +27,11 @@ var (
 
 // At records one event (sequence number, point, key/value pairs) as a JSON line in the file
 // named by VERIF_TRACE and kills the process (SIGKILL: no deferred code, no buffers flushed)
-// when VERIF_CRASH_AT=<point>:<n> names the n-th occurrence of this point.
+// when VERIF_CRASH_AT=<point>:<n> names the n-th occurrence of this point. With
+// VERIF_GATE=<point>:<file>[,<point>:<file>...] the caller is held at the point until <file>
+// exists; <file>.reached is written first, so that an external scheduler can order processes.
 func At(point string, kv ...any) {
+	defer gate(point)
 	mu.Lock()
 	defer mu.Unlock()
 	seq++
@@ -50,6 +54,30 @@ func At(point string, kv ...any) {
 				syscall.Kill(os.Getpid(), syscall.SIGKILL)
 				select {}
 			}
+		}
+	}
+}
+
+func gate(point string) {
+	g := os.Getenv("VERIF_GATE")
+	if g == "" {
+		return
+	}
+	for _, spec := range strings.Split(g, ",") {
+		i := strings.IndexByte(spec, ':')
+		if i <= 0 || spec[:i] != point {
+			continue
+		}
+		path := spec[i+1:]
+		if _, err := os.Stat(path); err == nil {
+			return // already released
+		}
+		os.WriteFile(path+".reached", []byte(strconv.Itoa(os.Getpid())), 0o644)
+		for k := 0; k < 30000; k++ {
+			if _, err := os.Stat(path); err == nil {
+				return
+			}
+			time.Sleep(2 * time.Millisecond)
 		}
 	}
 }
